@@ -62,7 +62,20 @@ func (b Branch) Target(ctx context.Context, height int) (*big.Int, error) {
 	projected.Mul(work, big.NewInt(600))
 	projected.Div(projected, big.NewInt(timeSpan))
 
-	target := bitcoin.ConvertToWork(projected)
+	if projected.Sign() <= 0 {
+		result := &big.Int{}
+		result.Set(bitcoin.MaxWork)
+		return result, nil
+	}
+
+	// Target = (2^256 - PW) / PW + 1, which is how the network converts the projected work. It is not
+	// the same as the work conversion, 2^256 / (PW + 1), when the result is near a change in the
+	// compact bits value.
+	target := &big.Int{}
+	target.Lsh(big.NewInt(1), 256)
+	target.Sub(target, projected)
+	target.Div(target, projected)
+	target.Add(target, big.NewInt(1))
 
 	if target.Cmp(bitcoin.MaxWork) > 0 {
 		target.Set(bitcoin.MaxWork)
